@@ -11,13 +11,13 @@
 (*   ERR      an exception would escape                                    *)
 (*                                                                         *)
 (* The part-of-day table is NOT written here: it is exported from          *)
-(* ctparse.types.pod_hours of the tree under test (env QA_POD_FILE), so    *)
+(* ctparse.types.pod_hours of the tree under test (module PodData), so     *)
 (* the table TLC reasons about is the table of the code.  Per key it       *)
 (* carries h0/h1 (start/end hour) and the two flags the rules derive by    *)
 (* substring tests: pm ("afternoon|evening|night|last" occurs in the key)  *)
 (* and am ("forenoon|morning|first" occurs in the key).                    *)
 (***************************************************************************)
-EXTENDS Integers, Sequences, Calendar, Json, IOUtils
+EXTENDS Integers, Sequences, Calendar, PodData
 
 X == -1
 NOPOD == "X"
@@ -25,7 +25,9 @@ NONE == [k |-> "N"]
 FAIL == [k |-> "F"]
 ERR  == [k |-> "E"]
 
-PodTable == JsonDeserialize(IOEnv.QA_POD_FILE)
+\* PodTable is defined in PodData.tla, a module GENERATED at check time from
+\* ctparse.types.pod_hours of the tree under test (harness/qa.py: write_pod_module)
+\* and put on TLC's library path; a literal, so TLC evaluates it once.
 PodKnown(p) == p \in DOMAIN PodTable
 PodH0(p) == PodTable[p].h0
 PodH1(p) == PodTable[p].h1
